@@ -173,6 +173,52 @@ theorem mac_u64_go_prefix (b0 b1 b2 b3 b4 b5 : UInt8) (rest : List UInt8) :
   rw [if_neg (by omega)]
   rfl
 
+/-- **Every hardware address of six or more bytes** (6 = Ethernet, 8 = EUI-64, 16 = a full chaddr, 20 = IPoIB …):
+    all Go conversions — the guarded loop of `ebpf.MACToUint64` / `walledgarden.macToUint64` and the indexed shifts of
+    `antispoof.macToUint64` — and the kernel's `mac_to_u64` over the six bytes it has produce THE SAME key, the
+    big-endian number of the FIRST six bytes; nothing beyond the sixth byte influences it. -/
+theorem mac_u64_first_six (mac : List UInt8) (h : 6 ≤ mac.length) :
+    macU64GoLoop mac = macKey6 mac ∧ macU64ShiftL mac = some (macKey6 mac) ∧ macU64COf mac = macKey6 mac := by
+  match mac, h with
+  | b0 :: b1 :: b2 :: b3 :: b4 :: b5 :: rest, _ =>
+    have e1 := mac_u64_go_prefix b0 b1 b2 b3 b4 b5 rest
+    simp only [List.cons_append, List.nil_append] at e1
+    refine ⟨?_, ?_, ?_⟩
+    · rw [e1, macU64CLoop_val, macKey6_cons]
+    · simp only [macU64ShiftL, macU64Shift_val, macKey6_cons]
+    · simp only [macU64COf, List.getD_cons_zero, List.getD_cons_succ, macU64CLoop_val, macKey6_cons]
+
+/-- …and the reverse conversion (`Uint64ToMAC`, `uint64ToMAC`) gives back exactly those first six bytes -/
+theorem mac_u64_roundtrip (mac : List UInt8) (h : 6 ≤ mac.length) :
+    u64ToMac (macU64GoLoop mac) = mac.take 6 := by
+  match mac, h with
+  | b0 :: b1 :: b2 :: b3 :: b4 :: b5 :: rest, h' =>
+    rw [(mac_u64_first_six _ h').1, macKey6_cons, u64ToMac_macVal]
+    rfl
+
+example : macU64GoLoop [0, 0x11, 0x22, 0x33, 0x44, 0x55, 0x66, 0x77] = 0x001122334455 := by decide
+
+/-- below six bytes there is no Ethernet address: the guarded loops answer key 0, the indexed shifts panic -/
+theorem mac_u64_short_behaviour (mac : List UInt8) (h : mac.length < 6) :
+    macU64GoLoop mac = 0 ∧ macU64ShiftL mac = none := by
+  refine ⟨by simp [macU64GoLoop, h], ?_⟩
+  match mac, h with
+  | [], _ => rfl
+  | [_], _ => rfl
+  | [_, _], _ => rfl
+  | [_, _, _], _ => rfl
+  | [_, _, _, _], _ => rfl
+  | [_, _, _, _, _], _ => rfl
+  | _ :: _ :: _ :: _ :: _ :: _ :: _, h => exact absurd h (by simp only [List.length_cons]; omega)
+
+/-- the MAC conversions of the repository, enumerated by the translator over every Go file: exactly these.  A new
+    `func(net.HardwareAddr) uint64` / `func(uint64) net.HardwareAddr` anywhere in the module breaks this theorem (and
+    stops the harness, whose table must match) until it is put under the byte-level comparison. -/
+theorem mac_conversions_enumerated :
+    macToU64Funcs = ["pkg/antispoof.macToUint64", "pkg/ebpf.MACToUint64", "pkg/walledgarden.macToUint64"] ∧
+    u64ToMacFuncs = ["pkg/ebpf.Uint64ToMAC", "pkg/walledgarden.uint64ToMAC"] := by
+  decide
+
 /-- a short hardware address: Go yields key 0 (no C counterpart: the C code always has six bytes) -/
 theorem mac_u64_go_short (mac : List UInt8) (h : mac.length < 6) : macU64GoLoop mac = 0 := by
   simp [macU64GoLoop, h]
